@@ -178,7 +178,7 @@ def _function_over_two_vars(repr_func, raw_func, x, y, out=None, out_like=None, 
     else:
         config = x.config
 
-    if method == 'repr' or x.scaled or n_frac is None:
+    if method == 'repr' or x.scaled or y.scaled or n_frac is None:
         raw = False
         val = repr_func(x.get_val(), y.get_val(), **kwargs)
     elif method == 'raw':
